@@ -220,7 +220,29 @@ func (g *gen) step() bool {
 	}
 	isList := func(p path) bool { _, ok := p.val.(*zn.ListV); return ok }
 	isDict := func(p path) bool { _, ok := p.val.(*zn.DictV); return ok }
-	switch g.pick(18, "action") {
+	switch g.pick(20, "action") {
+	case 18, 19: // a literal that names the SAME list / dictionary twice (or a variable and one of its
+		// own items): every mention is stored as a copy of its own
+		if p, ok := pickPath("twice", func(p path) bool { return isList(p) || isDict(p) }); ok {
+			n := g.name()
+			var lit zn.Expr
+			switch g.pick(3, "twice-form") {
+			case 0:
+				lit = &zn.ListLit{Items: []zn.Expr{p.expr, p.expr}}
+			case 1:
+				lit = &zn.DictLit{Keys: []string{"p", "q"}, Vals: []zn.Expr{p.expr, p.expr}}
+			default:
+				lit = &zn.ListLit{Items: []zn.Expr{p.expr, &zn.ListLit{Items: []zn.Expr{p.expr}}, g.scalar()}}
+			}
+			if g.pick(2, "twice-assign") == 0 || len(colls) == 0 {
+				add(&zn.Let{Names: []string{n}, E: lit})
+			} else if t := colls[g.pick(len(colls), "twice-tgt")]; !g.consts[t] {
+				add(set(v(t), lit))
+			} else {
+				add(&zn.Let{Names: []string{n}, E: lit})
+			}
+			g.labels["literal-naming-one-collection-twice"] = true
+		}
 	case 16, 17: // a name bound by 得到: to what a method hands out (one of its inputs, as it is),
 		// or to the result of a method call on a value - a declaration like any other
 		if p, ok := pickPath("ysrc", nil); ok {
